@@ -28,7 +28,7 @@ def main():
     finally:
         subprocess.run(['git', '-C', '/repo', 'checkout', '--', '.'])
         # replays written while the mutant was applied are not findings on the real tree
-        subprocess.run('git -C /verif status --porcelain replays | awk \'{print $2}\' | xargs -r -I{} rm -f /verif/{}', shell=True)
+        subprocess.run('git -C /verif status --porcelain --untracked-files=all replays | awk \'{print $2}\' | xargs -r -I{} rm -f /verif/{}', shell=True)
     rp = os.path.join(d, 'result.json')
     old = json.load(open(rp)) if os.path.exists(rp) else {}
     old.setdefault(tier, {}).update(results)
